@@ -161,6 +161,7 @@ type Run struct {
 	armed    map[string]bool
 	delays   map[string]time.Duration
 	sleepers atomic.Int32
+	maxHold  time.Duration
 	start    time.Time
 	roleLogs map[string][]string
 	cleanups []func()
@@ -312,7 +313,29 @@ func (r *Run) SetDelay(site string, d time.Duration) {
 		r.delays = map[string]time.Duration{}
 	}
 	r.delays[site] = d
+	if d > r.maxHold && d >= time.Microsecond {
+		r.maxHold = d
+	}
 	r.mu.Unlock()
+}
+
+// MaxHold is the longest hold configured for this run (0: none).
+func (r *Run) MaxHold() time.Duration {
+	r.mu.Lock()
+	defer r.mu.Unlock()
+	return r.maxHold
+}
+
+// SettleHolds lets goroutines that are being held at an instrumented point (a delay of a microsecond or more) move
+// on: simulated time advances by a few times the longest hold. No-op in runs without holds.
+func (r *Run) SettleHolds() {
+	r.mu.Lock()
+	h := r.maxHold
+	r.mu.Unlock()
+	if h > 0 {
+		time.Sleep(12 * h)
+		syncWait()
+	}
 }
 
 func (r *Run) Disarm(sites ...string) {
@@ -338,7 +361,11 @@ func (r *Run) Hook(site string) {
 		// orders it exactly against every other goroutine (the fake clock only moves when all are at rest)
 		r.Stats.Hooks[site]++
 		r.mu.Unlock()
-		if d > 0 {
+		switch {
+		case d >= time.Microsecond:
+			// a hold: the goroutine stays here for a span the harness can act in (Close, deliveries); it counts as at rest
+			time.Sleep(d)
+		case d > 0:
 			r.sleepers.Add(1)
 			time.Sleep(d)
 			r.sleepers.Add(-1)
